@@ -858,6 +858,9 @@ func classifySlice(p *Program, fn *ssa.Function, x *ssa.Slice) panicSite {
 			if call, ok := ex.Tuple.(*ssa.Call); ok {
 				if f := call.Call.StaticCallee(); f != nil && strings.HasPrefix(f.Name(), "Read") {
 					for _, a := range call.Call.Args {
+						if sl, ok := a.(*ssa.Slice); ok && sl.X == x.X {
+							a = x.X
+						}
 						if a == x.X {
 							if lo, ok := constIntOrNil(x.Low); ok && lo == 0 {
 								s.ok, s.why = true, "upper bound is the count returned by the read into the same buffer (0 <= n <= len, io contract)"
@@ -883,6 +886,9 @@ func classifySlice(p *Program, fn *ssa.Function, x *ssa.Slice) panicSite {
 		min = n
 	}
 	if n, ok := makeSliceLen(x.X); ok && n > min {
+		min = n
+	}
+	if n, ok := bcdDecodeLen(x.X); ok && n > min {
 		min = n
 	}
 	if x.High == nil && x.Low != nil {
@@ -926,6 +932,31 @@ func resolveLocal(v ssa.Value) ssa.Value {
 		}
 	}
 	return v
+}
+
+// bcdDecodeLen: the text returned by bcd.Decode(x[a:b]) has exactly 2*(b-a) characters.
+func bcdDecodeLen(v ssa.Value) (int64, bool) {
+	v = resolveLocal(v)
+	ex, ok := v.(*ssa.Extract)
+	if !ok || ex.Index != 0 {
+		return 0, false
+	}
+	call, ok := ex.Tuple.(*ssa.Call)
+	if !ok {
+		return 0, false
+	}
+	f := call.Call.StaticCallee()
+	if f == nil || calleeName(f) != "bcd.Decode" {
+		return 0, false
+	}
+	if sl, ok := call.Call.Args[0].(*ssa.Slice); ok {
+		lo, ok1 := constIntOrNil(sl.Low)
+		hi, ok2 := constInt(sl.High)
+		if ok1 && ok2 && sl.High != nil {
+			return 2 * (hi - lo), true
+		}
+	}
+	return 0, false
 }
 
 func makeSliceLen(v ssa.Value) (int64, bool) {
